@@ -238,6 +238,162 @@ class EnvelopeHooks(qsend.BounceHooks):
 
 
 
+def g1v(v):
+    return next(iter(v)) if v is not TOP and v is not None and len(v) == 1 else None
+
+
+class StripHooks(QHooks):
+    """stripvdomprepend(recip) over a concrete recipient and a scripted virtualdomains table"""
+    def __init__(self, recip, table):
+        self.recip = recip
+        self.table = table
+        self.ret = []
+        self.over = None
+
+    def tracked_global(self, path):
+        return True
+
+    def precise_arith(self, path):
+        return True
+
+    def rd(self, E, p, i):
+        from qv.esp import ptr_add
+        q = ptr_add(p, i) if isinstance(p, tuple) else None
+        if q is None:
+            return None
+        v = E.get(q[1])
+        if v is TOP:
+            v = self.materialize(E, q[1])
+        return next(iter(v)) if v is not TOP and len(v) == 1 else None
+
+    def materialize(self, E, path):
+        if path.startswith('RCP['):
+            k = int(path[4:-1])
+            if k > len(self.recip) and self.over is None:
+                self.over = (k, E.trace.list())
+            return fs(ord(self.recip[k]) if 0 <= k < len(self.recip) else 0) if k <= len(self.recip) else TOP
+        return TOP
+
+    def cstr(self, E, p, limit=80):
+        out = ''
+        for i in range(limit):
+            b = self.rd(E, p, i)
+            if b is None:
+                return None
+            if b == 0:
+                return out
+            out += chr(b & 255)
+        return None
+
+    def prim_str_rchr(self, E, x, args):
+        s_, c = self.cstr(E, g1v(args[0])), g1v(args[1])
+        if s_ is None:
+            return [Outcome(ret=TOP)]
+        return [Outcome(ret=fs(s_.rfind(chr(c)) if chr(c) in s_ else len(s_)))]
+
+    def prim_strlen(self, E, x, args):
+        s_ = self.cstr(E, g1v(args[0]))
+        return [Outcome(ret=fs(len(s_)) if s_ is not None else TOP)]
+
+    prim_str_len = prim_strlen
+
+    def prim_constmap(self, E, x, args):
+        p, n = g1v(args[1]), g1v(args[2])
+        if not isinstance(n, int) or n < 0 or n > 80:
+            return [Outcome(ret=fs(0))]
+        key = ''
+        for i in range(n):
+            b = self.rd(E, p, i)
+            if b is None:
+                return [Outcome(ret=fs(0))]
+            key += chr(b & 255)
+        pre = self.table.get(key.lower())
+        if pre is None:
+            return [Outcome(ret=fs(0), log='virtualdomains lookup %r: no entry' % key)]
+        base = 'PRE%d' % sorted(self.table).index(key.lower())
+        sets = {'%s[%d]' % (base, i): fs(ord(ch)) for i, ch in enumerate(pre)}
+        sets['%s[%d]' % (base, len(pre))] = fs(0)
+        return [Outcome(ret=fs(('&', base + '[0]')), sets=sets, log='virtualdomains lookup %r -> prefix %r' % (key, pre))]
+
+    def _cmpn(self, E, x, args):
+        a, b, n = g1v(args[0]), g1v(args[1]), g1v(args[2])
+        if not isinstance(n, int):
+            return [Outcome(ret=fs(0)), Outcome(ret=fs(1))]
+        for i in range(n):
+            ca, cb = self.rd(E, a, i), self.rd(E, b, i)
+            if ca is None or cb is None:
+                return [Outcome(ret=fs(0)), Outcome(ret=fs(1))]
+            if ca != cb:
+                return [Outcome(ret=fs(1))]
+            if ca == 0:
+                break
+        return [Outcome(ret=fs(0))]
+
+    prim_strncmp = prim_str_diffn = _cmpn
+
+    def on_return(self, E, fn, val):
+        if fn.name == 'stripvdomprepend':
+            self.ret.append((g1v(val), E.trace.list()))
+
+
+def strip_sites(db, rep, prog):
+    """the bounce names the recipient with the virtual-domain prefix removed: stripvdomprepend undoes what the
+    documented routing rule prepends, for every kind of virtualdomains entry, and never reads beyond the recipient"""
+    fn = prog.fn('stripvdomprepend', 'qmail-send.c')
+    table = {'example.net': 'hosting', '.example.org': 'wild', 'www.example.org': '', 'bob@full.example': 'fullpre', 'short.example': 'averyveryverylongprefixindeed'}
+
+    def route(addr):
+        """documented rule: full address, then domain, then successively shorter dot suffixes, then catch-all"""
+        at = addr.rfind('@')
+        dom = addr[at + 1:]
+        cands = [addr, dom] + [dom[i:] for i in range(1, len(dom)) if dom[i] == '.'] + ['']
+        for c in cands:
+            if c.lower() in table:
+                return table[c.lower()], c
+        return None, None
+    cases = []
+    for a in ('bob@example.net', 'al@sub.example.org', 'x@deep.sub.example.org', 'bob@www.example.org', 'wild-bob@www.example.org', 'hosting-x@other.example',
+              'bob@full.example', 'carol@full.example', 'al@short.example', 'nodomain', 'a-b-c@example.net', 'B@EXAMPLE.NET'):
+        pre, via = route(a)
+        if pre:
+            cases.append((pre + '-' + a, a, via))
+        else:
+            cases.append((a, a, via))
+    # recipients at a virtual domain that do NOT carry its prefix (the domain is also listed in locals, or the table changed
+    # while the message was queued): nothing to strip, and the prefix may be longer than the whole address
+    cases.append(('al@short.example', 'al@short.example', None))
+    cases.append(('x@example.net', 'x@example.net', None))
+    out = {}
+    bad_kind = {}
+    over = None
+    for recip, want, via in cases:
+        H = StripHooks(recip, table)
+        e = Engine(db, prog, H)
+        fid = e.frame_id(fn)
+        e.run(fn, {'%s::%s' % (fid, fn.params[0]): fs(('&', 'RCP[0]'))})
+        rep.count_states(e.states, e.transitions)
+        if H.over:
+            if over is None:
+                over = ('for the recipient %r (%d bytes) byte %d is read: beyond the end of the string' % (recip, len(recip), H.over[0]), H.over[1])
+            continue
+        if len(H.ret) != 1:
+            raise AnalysisBroken('stripvdomprepend: %d ends for %r' % (len(H.ret), recip))
+        v, tr = H.ret[0]
+        got = recip[int(v[1][4:-1]):] if isinstance(v, tuple) and v[0] == '&' and v[1].startswith('RCP[') else None
+        if H.over and over is None:
+            over = ('for the recipient %r (%d bytes) byte %d is read: beyond the end of the string' % (recip, len(recip), H.over[0]), H.over[1])
+        if got != want:
+            kind = 'full-address-entry' if via and '@' in via else 'exception-entry' if via is not None and table.get(via.lower()) == '' else 'domain-or-wildcard-entry' if via else 'no-entry'
+            bad_kind.setdefault(kind, ('recipient %r (original address %r, virtualdomains entry %r) is named as %r in the bounce' % (recip, want, via, got), tr, '%s->%s' % (recip, got)))
+    for kind in ('domain-or-wildcard-entry', 'exception-entry', 'no-entry', 'full-address-entry'):
+        b = bad_kind.get(kind)
+        # a failing instance is named by its input and observed result, so that the known-findings file can list exactly one misbehaviour
+        out['strip:%s%s' % (kind, ':%s' % b[2] if b else '')] = (b is None, 'qmail-send.c:stripvdomprepend', b[0] if b else '', b[1] if b else [])
+    out['strip:never-reads-beyond-the-recipient'] = (over is None, 'qmail-send.c:stripvdomprepend', over[0] if over else '', over[1] if over else [])
+    return out
+
+
+
 def run(ctx):
     db, rep = ctx.db, ctx.report
     prog = db.program('qmail-send')
@@ -286,6 +442,11 @@ def run(ctx):
         if inst in ('qmail_close:success-only-for-exit0+no-failure', 'qmail_close:crash->Z'):
             r2.check(v[0], inst, v[1], v[2], v[3])
     r2.expect_min(4)
+
+    r5 = rep.rule('C14.5-recipient-named-without-the-virtual-prefix', 'R-TABLE', 'stripvdomprepend() over 12 recipients and five kinds of virtualdomains entries: the prefix the routing rule prepended is removed, nothing is removed from addresses the rule did not touch (exception entries end the search), and no byte beyond the recipient is read')
+    for inst, v in sorted(strip_sites(db, rep, prog).items()):
+        r5.check(v[0], inst, v[1], v[2], v[3])
+    r5.expect_min(5)
 
     r4 = rep.rule('C14.4-forwarded-bounces-keep-their-sender', 'R-GUARD', 'qmail-local: the -owner rewriting of the forwarding sender never applies to the null sender or to #@[], so a forwarded double bounce that fails is still recognised and discarded')
     from qv.lib import string_guard_allows
